@@ -102,6 +102,12 @@ def generate(run_seed, tier):
     rs = core.rng(run_seed, "sched")
     return dict(scenario=scenario, threads=threads, gran=gran, locks=nlocks,
                 warmup=r.choice(["none", "none", "w", "r", "rw"]),
+                # a lock that has already served many rounds (counters far
+                # from their initial values), and other RWLock instances
+                # created before / between the ones used
+                warm_rounds=r.choice([0] * 16 + [40, 560, 640]),
+                spacer=r.choice([0] * 8 + [1, 2, 7, 8, 15, 16,
+                                           r.randrange(0, 24)]),
                 sched=gen_sched(rs, len(threads),
                                 est * max(len(t["rounds"]) for t in threads)))
 
@@ -205,8 +211,19 @@ def execute(prog):
 def _execute(prog, rw, out):
     nlocks = prog.get("locks", 1)
     try:
-        locks_ = [rw["RWLock"]() for _ in range(nlocks)]
+        locks_ = []
+        spare = []
+        for li in range(nlocks):
+            locks_.append(rw["RWLock"]())
+            spare.extend(rw["RWLock"]() for _ in range(prog.get("spacer", 0)))
         for lock in locks_:
+            for wi in range(prog.get("warm_rounds", 0)):
+                if wi % 2:
+                    lock.writer_acquire()
+                    lock.writer_release()
+                else:
+                    lock.reader_acquire()
+                    lock.reader_release()
             for ch in prog.get("warmup", "none"):
                 if ch == "w":
                     lock.writer_acquire()
